@@ -1,4 +1,5 @@
 import Mdsort.Proofs.WorldOwn
+import Mdsort.Proofs.Captures
 
 /-!
 # C13 - commands get exactly the configured arguments and a clean process environment
@@ -41,5 +42,55 @@ theorem C13_error_stops_actions (env : PEnv) (mh : Match) (rest rest' : MatchLis
     (runOracle orc (matchesExec env (mh :: rest) st) 0 []).1.2 = true ∧
     (runOracle orc (matchesExec env (mh :: rest) st) 0 []).2 = (runOracle orc (matchesExec env (mh :: rest') st) 0 []).2 :=
   Proofs.error_stops_list env mh rest rest' st orc he
+
+/-! ## The argument vector is exactly what was configured -/
+
+/-- `argv = strings.map (cstr ∘ interpolate)`: every configured string interpolates, the vector is
+the list of results in the configured order, nothing else of the entry changes and the message is
+not touched. -/
+theorem C13_argv_exact (macros : Option (List (Bytes × Bytes))) (ml : MatchList) (i : Nat) (mh mh' : Match)
+    (msgs : Nat → Msg) (upd : Option (Nat × Msg)) (hty : mh.ty = .exec ∨ mh.ty = .command)
+    (h : matchInterpolate macros ml i mh msgs = some (mh', upd)) :
+    mh'.argv = mh.strings.map (fun s => cstr ((interpolate (ml.take i) macros s).getD [])) ∧
+    (∀ s ∈ mh.strings, (interpolate (ml.take i) macros s).isSome = true) ∧
+    mh' = { mh with argv := mh'.argv } ∧ upd = none :=
+  Proofs.argv_full macros ml i mh mh' msgs upd hty h
+
+/-- Same length; the k-th argument comes from the k-th configured string. -/
+theorem C13_argv_length_order (macros : Option (List (Bytes × Bytes))) (ml : MatchList) (i : Nat) (mh mh' : Match)
+    (msgs : Nat → Msg) (upd : Option (Nat × Msg)) (hty : mh.ty = .exec ∨ mh.ty = .command)
+    (h : matchInterpolate macros ml i mh msgs = some (mh', upd)) (k : Nat) :
+    mh'.argv.length = mh.strings.length ∧
+    mh'.argv[k]? = (mh.strings[k]?).map fun s => cstr ((interpolate (ml.take i) macros s).getD []) :=
+  Proofs.argv_length macros ml i mh mh' msgs upd hty h k
+
+/-- No word splitting, no globbing, no quote removal: configured strings without `\`, `$` and NUL
+become the argument vector byte for byte - an argument with blanks, quotes or `*` stays ONE
+argument. -/
+theorem C13_argv_no_splitting (macros : Option (List (Bytes × Bytes))) (ml : MatchList) (i : Nat) (mh : Match)
+    (msgs : Nat → Msg) (hty : mh.ty = .exec ∨ mh.ty = .command)
+    (hpl : ∀ s ∈ mh.strings, Proofs.Plain s ∧ (0 : UInt8) ∉ s) :
+    matchInterpolate macros ml i mh msgs = some ({ mh with argv := mh.strings }, none) :=
+  Proofs.argv_plain macros ml i mh msgs hty hpl
+
+/-- Non-vacuity: `exec { "sh" "a b 'c' *" "-x" }` - three strings, three arguments. -/
+example :
+    (∀ s ∈ [[115, 104], [97, 32, 98, 32, 39, 99, 39, 32, 42], [45, 120]], Proofs.Plain s ∧ (0 : UInt8) ∉ s) ∧
+    (matchInterpolate none [] 0
+      { ty := .exec, lno := 1, part := 0, strings := [[115, 104], [97, 32, 98, 32, 39, 99, 39, 32, 42], [45, 120]] }
+      (fun _ => parseMessage [])).map (·.1.argv) =
+    some [[115, 104], [97, 32, 98, 32, 39, 99, 39, 32, 42], [45, 120]] := by
+  decide +kernel
+
+/-- Non-vacuity with a capture containing a blank: `exec { "echo" "\1" }` after a match whose group 1
+is `a b`: two arguments, the second is `a b`. -/
+example :
+    (matchInterpolate none
+      [{ ty := .mtch, lno := 1, part := 0 },
+       { ty := .header, lno := 1, part := 0, subs := [⟨[120], some (0, 1)⟩, ⟨[97, 32, 98], some (0, 3)⟩] }] 2
+      { ty := .exec, lno := 1, part := 0, strings := [[101, 99, 104, 111], [92, 49]] }
+      (fun _ => parseMessage [])).map (·.1.argv) =
+    some [[101, 99, 104, 111], [97, 32, 98]] := by
+  decide +kernel
 
 end Mdsort.Props
